@@ -480,6 +480,6 @@ PARTS = {"lines": check_lines, "history": check_history, "fault": check_fault}
 
 def run_shard(ctx, rec):
     safe = RD.any_value(("id", "plain1", "id_plain"))
-    drive(ctx, rec, "lines", RD.programs(safe), check_lines, ctx.n(2500, 60000))
-    drive(ctx, rec, "history", history_cases(), check_history, ctx.n(600, 8000))
-    drive(ctx, rec, "fault", fault_cases(), check_fault, ctx.n(1600, 40000))
+    drive(ctx, rec, "lines", RD.programs(safe), check_lines, ctx.n(2500, 30000))
+    drive(ctx, rec, "history", history_cases(), check_history, ctx.n(600, 5000))
+    drive(ctx, rec, "fault", fault_cases(), check_fault, ctx.n(1600, 20000))
